@@ -499,6 +499,7 @@ type NsData struct {
 // Req is the union of the request parameters of all kinds.
 type Req struct {
 	St     [][]string `json:"st,omitempty"`     // list: RETURN (STATUS (...))
+	Lp     int        `json:"lp"`               // list: which (reference, pattern) is asked with (lpTable)
 	Mbox   *F         `json:"mbox,omitempty"`   // status, select
 	Sitems []string   `json:"sitems,omitempty"` // status
 	UID    bool       `json:"uid"`              // fetch, search, copy, expunge
@@ -524,7 +525,7 @@ func reqJSON(k string, r *Req) interface{} {
 		for _, x := range r.St {
 			st = append(st, strs(x))
 		}
-		return map[string]interface{}{"st": st}
+		return map[string]interface{}{"st": st, "lp": r.Lp}
 	case "status":
 		return map[string]interface{}{"mbox": r.Mbox, "sitems": strs(r.Sitems)}
 	case "select":
